@@ -122,6 +122,7 @@ vf::Outcome run_case(const vf::Case& c, const vf::RunCtx& ctx) {
     }
     long soak = 0;
     switch (c.ints[0]) { case 1: soak = 1000; break; case 2: soak = 10000; break; case 3: soak = ctx.thorough ? 1000000 : 100000; break; default: break; }
+    if (ctx.fuzz) soak = std::min<long>(soak, 1000);
     const long total = (long)L + (L ? soak : 0);
     const double* tr = c.reals.data() + 3 * R + 3;
     std::vector<TangentT> tans;
